@@ -256,6 +256,9 @@ type Case struct {
 	ID   string
 	Ops  []Op
 	Note string
+	// ModelText, when set, is what the MODEL driver receives instead of the serialised ops
+	// (C01 three-way tie: the same program as a GoSyn term, built by the Lean builder)
+	ModelText string
 }
 
 func (o Op) Line() string {
@@ -334,3 +337,11 @@ func (c *Case) Lines() []string {
 }
 
 func (c *Case) Text() string { return strings.Join(c.Lines(), "\n") + "\n" }
+
+// DriverText is what is sent to the model driver for this case.
+func (c *Case) DriverText() string {
+	if c.ModelText != "" {
+		return c.ModelText
+	}
+	return c.Text()
+}
